@@ -49,8 +49,8 @@ CLAIMED = {
         "DESIGN.md §4 C08",
     ),
     "C09": (
-        "Model-based stateful property testing of the real fee distributor with the real lair and collector: generated histories of epoch creations (on time, 1 ns / hours / a day late), arbitrary fee inflows, claims by single users and by everybody in rotated order, bonds, unbonds, withdrawals and grace-period increases (grace 1..5). After every step every Epoch{id} is read back and checked against the ledger rules: claimed + available == total inside the grace window, the epoch leaving the window is rolled into the new one exactly once (new.total == forwarded + remainder) and then frozen, distributor balance >= sum of available, each claim's payout == sum of claimed increases == sum of available decreases, an address is paid at most once per epoch and never for an epoch that started before its current bonding stint, ids/start times gap-free.",
-        "Distribution asset and epoch configuration fixed within a history. Inflows are plain transfers to the collector (pipeline = C10). Block time owned by the harness.",
+        "Model-based stateful property testing of the real fee distributor with the real lair and collector: generated histories of epoch creations (on time, 1 ns / hours / a day late), arbitrary fee inflows, claims by single users and by everybody in rotated order, bonds, unbonds, withdrawals, grace-period increases (grace 1..5) and switches of the distribution asset by the owner (to a second bank denom and back; epochs then hold two assets). After every step every Epoch{id} is read back and checked against the ledger rules: claimed + available == total inside the grace window, the epoch leaving the window is rolled into the new one exactly once (new.total == forwarded + remainder) and then frozen, distributor balance >= sum of available, each claim's payout == sum of claimed increases == sum of available decreases, an address is paid at most once per epoch and never for an epoch that started before its current bonding stint, ids/start times gap-free.",
+        "The ledger rules are judged on the first distribution asset (uwhale) throughout; the second asset rides along. Epoch configuration fixed within a history. Inflows are plain transfers to the collector (pipeline = C10). Block time owned by the harness.",
         "stateful / model-based property testing with an epoch-ledger oracle",
         "DESIGN.md §4 C09",
     ),
